@@ -104,7 +104,14 @@ void check_pruning(sim::RunCtx& ctx) {
         bool expect_mm = cl.chunk_stats && co.has_minmax && !co.mn.empty() && !co.mx.empty();
         if (cl.chunk_stats) { SIM_CHECK(cs.has_null_count && cs.null_count == co.nulls, "stats_api.null_count", "rg%d col%zu: null_count %lld (has=%d), file states %lld", g, c, (long long)cs.null_count, (int)cs.has_null_count, (long long)co.nulls); }
         else SIM_CHECK(!cs.has_min_max && !cs.has_null_count, "stats_api.phantom_statistics", "rg%d col%zu: statistics reported although the file has none", g, c);
-        if (expect_mm) {
+        // byte-array bounds that exist only in the deprecated fields are in signed byte order: a reader may hand them out as stated or
+        // (like parquet-mr since 1.10) not use them at all - but must never treat them as bounds in the unsigned order
+        bool deprecated_bytes_only = expect_mm && co.stats_mode == 2 && (t.cols[c].type == T_BA || t.cols[c].type == T_FLBA);
+        if (deprecated_bytes_only) {
+            if (cs.has_min_max) SIM_CHECK(cs.min_value_size == (int32_t)co.dmn.size() && cs.max_value_size == (int32_t)co.dmx.size() && memcmp(cs.min_value, co.dmn.data(), co.dmn.size()) == 0 && memcmp(cs.max_value, co.dmx.data(), co.dmx.size()) == 0,
+                      "stats_api.min_max_value", "rg%d col%zu (%s): min/max returned differ from the file's deprecated min/max", g, c, type_name(t.cols[c].type));
+            SIM_COUNT("probe.byte_array_bounds_in_deprecated_fields_only");
+        } else if (expect_mm) {
             SIM_CHECK(cs.has_min_max, "stats_api.min_max_missing", "rg%d col%zu (%s): file states min/max (mode %d) but has_min_max is false", g, c, type_name(t.cols[c].type), cl.chunk_stats);
             SIM_CHECK(cs.min_value_size == (int32_t)co.mn.size() && cs.max_value_size == (int32_t)co.mx.size() && memcmp(cs.min_value, co.mn.data(), co.mn.size()) == 0 && memcmp(cs.max_value, co.mx.data(), co.mx.size()) == 0,
                       "stats_api.min_max_value", "rg%d col%zu (%s): min/max returned differ from the file's", g, c, type_name(t.cols[c].type));
